@@ -11,7 +11,9 @@ negative.  Only runs with return code 0 are judged (R2).
 Enumeration: alphabet() = 43 ops (REACTION of 6 reactants x {1 step, 3 listed amounts incremental, 3 listed amounts
 cumulative} + {NaCl, CaCO3} x "amount in 3 steps" {cumulative, incremental}; 2 MIX; 18 attach/replace ops over the six
 reactant kinds incl. 8 surface variants; REACTION_TEMPERATURE) x 2 execution modes x 2 initial cells (solutions only /
-one reactant of every kind); BFS to depth 2 (quick) or 3 (thorough, + depth 4 over the 10 first attach ops), next level
+one reactant of every kind); BFS to depth 2 (quick; in the 7-reactant cell over the 40-op "light" alphabet = all but the two
+Borkovec-Westall -diffuse_layer ops and the non-ideal solid solution) or, thorough, depth 3 from the solutions-only cell,
+depth 2 from the 7-reactant cell over all ops and depth 4 over the 10 first attach ops; next level
 = the distinct (canonical dump, 12 digits) completed states of the previous one.  The deadline is looked at between
 bounds only (a level; a big level is cut into one sub-bound per first op).
 
@@ -133,6 +135,8 @@ def alphabet(sub="all"):
     ops.append("temp:60")
     if sub == "attach":
         return [o for o in ops if o in ATTACH][:10]
+    if sub == "light":      # without the three ops that cost most in the 7-reactant cell (Borkovec-Westall integration, Guggenheim ss)
+        return [o for o in ops if o not in ("su:dl-new", "su:dl-equil", "ss:nonideal")]
     return ops
 
 
@@ -587,7 +591,7 @@ def run(tier):
     if tier == "quick":
         dl = core.Deadline(150)
         plan = [("full alphabet", "plain", m, allops, 2) for m in ("use", "cells")] + \
-               [("full alphabet", "full", m, allops, 2) for m in ("use", "cells")]
+               [("light alphabet", "full", m, alphabet("light"), 2) for m in ("use", "cells")]
     else:
         dl = core.Deadline(840)
         # cheapest first, so that a deadline cut costs the tail of the biggest bound only
@@ -598,7 +602,7 @@ def run(tier):
         bfs(name, init, mode, ops, depth, ev, findings, pool, dl, stats)
     pool.close()
     total = stats["completed"] + stats["not_completed"]
-    ev.extra["alphabet"] = {"ops": allops, "attach_sub_alphabet": alphabet("attach"), "inits": sorted(INIT), "modes": ["use (USE..SAVE)", "cells (RUN_CELLS)"]}
+    ev.extra["alphabet"] = {"ops": allops, "attach_sub_alphabet": alphabet("attach"), "light_sub_alphabet_(quick, 7-reactant cell)": alphabet("light"), "inits": sorted(INIT), "modes": ["use (USE..SAVE)", "cells (RUN_CELLS)"]}
     ev.extra["lattice_points"] = total
     ev.extra["completed_runs"] = stats["completed"]
     ev.extra["not_completed_runs"] = stats["not_completed"]
